@@ -165,7 +165,11 @@ var solvers = []solverSpec{
 }
 
 func runSolver(sp solverSpec, query string, timeoutS int) SolverResult {
-	ctx, cancel := context.WithTimeout(context.Background(), time.Duration(timeoutS+2)*time.Second)
+	return runSolverCtx(context.Background(), sp, query, timeoutS)
+}
+
+func runSolverCtx(parent context.Context, sp solverSpec, query string, timeoutS int) SolverResult {
+	ctx, cancel := context.WithTimeout(parent, time.Duration(timeoutS+2)*time.Second)
 	defer cancel()
 	argv := sp.argv(timeoutS)
 	cmd := exec.CommandContext(ctx, argv[0], argv[1:]...)
@@ -215,27 +219,20 @@ func solve(query string, getValues []string, timeoutS int, allMustAgree bool) (f
 		}
 		return "(set-option :produce-models true)\n" + qm
 	}
-	short := 3
-	if timeoutS < short {
-		short = timeoutS
-	}
+	ctx, cancelAll := context.WithCancel(context.Background())
+	defer cancelAll()
+	use := solvers
 	if !allMustAgree {
-		r := runSolver(solvers[0], mk(solvers[0]), short)
-		all = append(all, r)
-		if r.Status == "unsat" || r.Status == "sat" {
-			return r, all
-		}
-		if r.Status == "error" {
-			// fall through to the race; keep the output
-		}
+		// quick: z3-new and cvc5 race; the old z3 joins only in thorough runs
+		use = []solverSpec{solvers[0], solvers[2]}
 	}
-	ch := make(chan SolverResult, len(solvers))
-	for _, sp := range solvers {
+	ch := make(chan SolverResult, len(use))
+	for _, sp := range use {
 		sp := sp
-		go func() { ch <- runSolver(sp, mk(sp), timeoutS) }()
+		go func() { ch <- runSolverCtx(ctx, sp, mk(sp), timeoutS) }()
 	}
 	var got []SolverResult
-	for range solvers {
+	for range use {
 		r := <-ch
 		got = append(got, r)
 		all = append(all, r)
